@@ -135,6 +135,16 @@ pub fn record_translate(out_path: &str, count: u64) {
                 let class = class_of(&v, to);
                 for (si, sp) in [0u64, rng.next() | 1, rng.next() | 1, rng.next() | 1].into_iter().enumerate() {
                     let Some(mut bytes) = val::encode(&v, from, Spell { seed: sp }) else { continue };
+                    if si == 2 && from == "yaml" {
+                        // a YAML document may be indented as a whole (block scalars excepted: their indicators are relative)
+                        let text = String::from_utf8(bytes).unwrap();
+                        bytes = if text.starts_with("---") || text.contains('|') || text.contains('>') {
+                            text.into_bytes()
+                        } else {
+                            let pad = " ".repeat(1 + (sp % 3) as usize);
+                            text.split_inclusive('\n').map(|l| if l.trim().is_empty() { l.to_owned() } else { format!("{pad}{l}") }).collect::<String>().into_bytes()
+                        };
+                    }
                     if si == 3 {
                         // a fourth spelling for YAML sources: the same text in UTF-16 / UTF-32
                         if from != "yaml" {
@@ -191,6 +201,9 @@ pub fn record_hops(out_path: &str, count: u64) {
         let (v, model) = if i == 4 {
             // a 40 000-entry map (MessagePack map16 header beyond 32767 pairs): fixed point only
             (V::Map((0..40000).map(|k| (V::Str(format!("k{k}")), V::Int(k))).collect()), "big")
+        } else if i == 5 {
+            // 2 500 entries of multi-byte text (about 50 KB of YAML): characters straddle the parsers' refill boundaries
+            (V::Map((0..2500).map(|k| (V::Str(format!("k{k}")), V::Str(format!("\u{20ac}\u{1f600}\u{e9}{k}")))).collect()), "big")
         } else if i < 4 {
             (witness, "common4")        // pinned witness of the recorded finding toml_nested_three_groups, from each start format
         } else if a == "toml" || i % 3 == 1 {
@@ -211,10 +224,21 @@ pub fn record_hops(out_path: &str, count: u64) {
             for (path, bytes, via_toml) in &frontier {
                 let from = *path.last().unwrap();
                 for to in FMTS {
-                    if path.len() >= 3 && rng.chance(2, 3) || model == "big" && (to == "toml" || to == "yaml" || path.len() >= 3) {
+                    if path.len() >= 3 && rng.chance(2, 3) || model == "big" && (to == "toml" || (to == "yaml" && i != 5) || path.len() >= 3) {
                         continue;
                     }
-                    let reader = if rng.chance(1, 2) { Some(Sched::Random(Rng::new(rng.next()), 9)) } else { None };
+                    let reader = if model == "big" {
+                        // large documents: a reader that fills whatever it is offered, one with 64 KiB reads, or a slice
+                        match rng.below(3) {
+                            0 => Some(Sched::All),
+                            1 => Some(Sched::Fixed(65536)),
+                            _ => None,
+                        }
+                    } else if rng.chance(1, 2) {
+                        Some(Sched::Random(Rng::new(rng.next()), 9))
+                    } else {
+                        None
+                    };
                     let (res, out, msg) = xlate(bytes, Some(from), to, reader);
                     let vt = *via_toml || to == "toml" && path.len() > 1 || from == "toml" && path.len() > 1 || to == "toml";
                     let (tree, pending) = if model == "big" {
@@ -227,7 +251,7 @@ pub fn record_hops(out_path: &str, count: u64) {
                     let mut p2 = path.clone();
                     p2.push(to);
                     // canonical-form uniqueness is claimed inside the common data model of the formats on the path
-                    let canonical = model == "common4" || (model == "common3" && !p2.contains(&"toml"));
+                    let canonical = model == "common4" || model == "big" || (model == "common3" && !p2.contains(&"toml"));
                     let mut r = json!({"ev": "hop", "vid": vid, "path": p2, "to": to, "from": from, "hop": p2.len() - 1, "model": model, "canonical": canonical,
                                        "inDigest": format!("{:016x}:{}", fnv(bytes), bytes.len()), "res": res, "viaToml": vt, "outTree": tree,
                                        "outDigest": format!("{:016x}:{}", fnv(&out), out.len()), "msg": msg.chars().take(100).collect::<String>(),
